@@ -196,7 +196,8 @@ def lean_axis(ad, toks):
 
 def lean_array(ad, toks):
     return {"axes": [lean_axis(a, toks) for a in ad["axes"]], "vkind": ad.get("vkind", "f"),
-            "attrs": toks.enc(ad.get("attrs_py", {})) if toks else []}
+            "attrs": toks.enc(ad.get("attrs_py", {})) if toks else [],
+            "nan": sorted(int(i) for i in ad.get("nan_at", ())) if ad.get("vkind", "f") == "f" else []}
 
 
 # --------------------------------------------------------------------------------------------
